@@ -35,6 +35,7 @@ type ASpec struct {
 	ErrBranches bool              `json:"actionErrorBranches"`
 	ErrNode     string            `json:"actionErrorNode"`
 	NoAutoError bool              `json:"noErrorNode,omitempty"`
+	ErrNodeName string            `json:"errorNode,omitempty"` // Spec.ErrorNode (Compile adds a node of that name; "" = "error")
 	SkipCompile bool              `json:"skip_compile,omitempty"`
 }
 
@@ -127,6 +128,11 @@ func (g *G) aspec(opts map[string]string) *ASpec {
 		s.ErrNode = g.pick(append(append([]string{}, names...), "onerr"))
 	}
 	s.NoAutoError = g.chance(0.05)
+	if _, have := s.Nodes["oops"]; !have && g.chance(0.07) {
+		// the specification names its own error node: Compile adds that one (Walk goes to "error" all the same, a node
+		// such a specification need not have)
+		s.ErrNodeName = "oops"
+	}
 	s.SkipCompile = g.chance(0.02)
 	for _, name := range names {
 		nd := &ANode{}
@@ -240,6 +246,7 @@ func (s *ASpec) build() (*core.Spec, error) {
 		ActionErrorBranches: s.ErrBranches,
 		ActionErrorNode:     s.ErrNode,
 		NoAutoErrorNode:     s.NoAutoError,
+		ErrorNode:           s.ErrNodeName,
 	}
 	act := func(a *Act) (core.Action, *core.ActionSource) {
 		if a == nil {
@@ -302,8 +309,14 @@ func (s *ASpec) build() (*core.Spec, error) {
 		noopInts.I.Silent = true
 		spec.Compile(context.Background(), noopInts, true)
 	}
-	if err := spec.Compile(context.Background(), interpreters(), true); err != nil {
+	ints := interpreters().(core.InterpretersMap)
+	if err := spec.Compile(context.Background(), ints, true); err != nil {
 		return nil, err
+	}
+	// the host's registry of interpreters is the host's: it empties it after compiling (a compiled action holds what it
+	// needs to run)
+	for k := range ints {
+		delete(ints, k)
 	}
 	// the pattern values handed to Compile stay the builder's: it goes on to use them for something else, and the
 	// compiled specification is not affected
@@ -362,9 +375,13 @@ func (s *ASpec) coq() string {
 	for k := range s.Nodes {
 		names = append(names, k)
 	}
-	_, haveErr := s.Nodes["error"]
+	errName := "error"
+	if s.ErrNodeName != "" {
+		errName = s.ErrNodeName
+	}
+	_, haveErr := s.Nodes[errName]
 	if !haveErr && !s.NoAutoError && !s.SkipCompile {
-		names = append(names, "error")
+		names = append(names, errName)
 	}
 	sort.Strings(names)
 	nodes := make([]string, 0, len(names))
